@@ -63,6 +63,7 @@ def steps(mk, probe, is_module, eval_neutral=True, other=None, reconf=None, cast
         out += [("state_dict", restored, "self"), ("torch.save/load of state_dict", saved, "self"),
                 ("double().float()", lambda: seeded(mk().double().float()), "self"),
                 ("to(cpu).float()", lambda: seeded(mk().to("cpu").float()), "self"),
+                ("enable_grad", lambda: seeded(mk(), torch.enable_grad), "self"),     # (the engine runs the checks with autograd switched off: this is the default user mode)
                 ("no_grad", lambda: seeded(mk(), torch.no_grad), "self"), ("inference_mode", lambda: seeded(mk(), torch.inference_mode), "self"),
                 ("in nn.ModuleList", lambda: seeded(torch.nn.ModuleList([mk()])[0]), "self"),
                 ("requires_grad_(False)", lambda: seeded(mk().requires_grad_(False)), "self"),
